@@ -226,17 +226,29 @@ def build():
     sd.after('let op = &ops[idx];', 'let ghost d0 = self.defs@; let ghost n = idx as int; let ghost mut ex: WSet = wnone();')
     # Const arm
     sd.after('self.defs .insert(*out, IndexedDef::new(idx, OpDef::Const(*val)));', 'proof { lemma_const(d0, ops@, n, *out, *val); }')
-    # Mul / Add arms (backwards step, then the out def)
-    ARM = '''proof {
+    # Mul / Add arms: structural anchors (arm start / arm end); the proof only relates the defs at arm start and at arm end
+    from vf.extract import match_brace
+    def arm_block(kind):
+        i = sd.body.index('kind: AluOpKind::' + kind + ',')
+        j = sd.body.index('=> {', i) + 3
+        return j, match_brace(sd.body, j)
+    for kind in ('Add', 'Mul'):   # later text first
+        o_, c_ = arm_block(kind)
+        ARM_END = """ proof {
                     let dfin = self.defs@;
+                    // what the arm must have done: the backwards step on b, then re-record out at this op (unless constant)
+                    lemma_backwards(d0, ops@, n, *out, *b);
+                    let bw = d0.dom().contains(*out) && d0[*out].idx < n;
+                    let d1 = if bw { ins_uc(d0, *b, n as usize, OpDef::<F>::Other) } else { d0 };
+                    assert(cat(d1, *out) ==> dfin == d1); // @@A:constant_out_slot_left_alone
+                    assert(!cat(d1, *out) ==> dfin.dom().contains(*out) && dfin[*out].idx == n && dfin == d1.insert(*out, dfin[*out])); // @@A:out_slot_rerecorded_at_this_op
                     if cat(d1, *out) { lemma_ins(d1, ops@, n, wnone(), true, *out, OpDef::<F>::Other); }
                     else { let dd = dfin[*out].def; lemma_ins(d1, ops@, n, wnone(), true, *out, dd); assert(dfin =~= ins_uc(d1, *out, n as usize, dd)); }
                     assert forall|w: WitnessId| #[trigger] definer(ops@[n], w) implies wadd(wnone(), *out)(w) by {}
                     lemma_close(self.defs@, ops@, n, wadd(wnone(), *out), true);
-                }'''
-    for arm in (0, 1):   # Mul arm, Add arm: backwards step, then the out def (whatever def the code records)
-        sd.after('self.track_backwards_op(idx, *out, *b);', 'proof { lemma_backwards(d0, ops@, n, *out, *b); } let ghost d1 = self.defs@;', nth=arm)
-        sd.at_enclosing_block_end('self.track_backwards_op(idx, *out, *b);', ARM, nth=arm)
+                } """
+        sd.body = sd.body[:c_] + ARM_END + sd.body[c_:]
+        sd.spec_inserts += 1
     # other Alu / Public arm
     sd.at_enclosing_block_end('Op::Alu { out, .. } | Op::Public { out, .. } => {', '''proof {
                     lemma_open(d0, ops@, n);
